@@ -914,6 +914,7 @@ theorem applyWarp_nonneg (e : FEnv K) (he : e.zero = 0) (run : List K) (h : ∀ 
     exact getD_nonneg run h _
   · rw [he]
 
+omit [IsStrictOrderedRing K] in
 theorem warp_nonneg (e : FEnv K) (he : e.zero = 0) (t : Traces K) (h : RowsNonneg t.dot) : RowsNonneg (warp e t).dot := by
   intro row hrow
   unfold warp at hrow
@@ -1072,5 +1073,746 @@ example :
     (allRanges ratEnv 5 1 2 3 [decoy, weak, good]).length = 12 ∧
     allRanges ratEnv 5 1 2 3 [decoy, weak, good] = allRanges ratEnv 5 1 2 3 [good] := by
   decide +kernel
+
+/-! ### `build_feature_map` establishes the index invariant -/
+
+section buildInv
+
+theorem flatMap_chunks_take {β : Type} (l : List β) (B n : Nat) :
+    (List.range n).flatMap (fun p => pageSlice l B p) = l.take (n*B) := by
+  induction n with
+  | zero => simp
+  | succ n ih =>
+    rw [List.range_succ, List.flatMap_append, ih]
+    simp only [List.flatMap_cons, List.flatMap_nil, List.append_nil, pageSlice]
+    rw [Nat.succ_mul, List.take_add]
+
+theorem flatMap_chunks {β : Type} (l : List β) (B n : Nat) (h : l.length ≤ n*B) :
+    (List.range n).flatMap (fun p => pageSlice l B p) = l := by
+  rw [flatMap_chunks_take, List.take_of_length_le h]
+
+theorem perm_flatMap {ι β : Type} (l : List ι) (f g : ι → List β) (h : ∀ a ∈ l, (f a).Perm (g a)) :
+    (l.flatMap f).Perm (l.flatMap g) := by
+  induction l with
+  | nil => simp
+  | cons a t ih =>
+    simp only [List.flatMap_cons]
+    exact (h a (by simp)).append (ih (fun b hb => h b (by simp [hb])))
+
+theorem length_flatMap_const {β : Type} (g : Nat → List β) (n B : Nat) (h : ∀ p < n, (g p).length = B) :
+    ((List.range n).flatMap g).length = n * B := by
+  induction n with
+  | zero => simp
+  | succ n ih =>
+    rw [List.range_succ, List.flatMap_append, List.length_append, ih (fun p hp => h p (by omega))]
+    simp only [List.flatMap_cons, List.flatMap_nil, List.append_nil]
+    rw [h n (by omega), Nat.succ_mul]
+
+/-- chunks of exactly `B` (the last one possibly shorter) are recovered by the `page*B` arithmetic -/
+theorem chunk_flatMap {β : Type} (g : Nat → List β) (B : Nat) : ∀ (n : Nat),
+    (∀ p, p + 1 < n → (g p).length = B) → (∀ p, p < n → (g p).length ≤ B) →
+    ∀ p, p < n → pageSlice ((List.range n).flatMap g) B p = g p := by
+  intro n
+  unfold pageSlice
+  induction n with
+  | zero => intro _ _ p hp; omega
+  | succ n ih =>
+    intro h1 h2 p hp
+    rw [List.range_succ, List.flatMap_append]
+    simp only [List.flatMap_cons, List.flatMap_nil, List.append_nil]
+    have hlen : ((List.range n).flatMap g).length = n * B :=
+      length_flatMap_const g n B (fun q hq => h1 q (by omega))
+    by_cases hpn : p < n
+    · have hle : (p+1) * B ≤ n * B := Nat.mul_le_mul_right B (by omega)
+      rw [Nat.add_mul] at hle
+      rw [List.drop_append_of_le_length (by rw [hlen]; omega)]
+      rw [List.take_append_of_le_length (by rw [List.length_drop, hlen]; omega)]
+      exact ih (fun q hq => h1 q (by omega)) (fun q hq => h2 q (by omega)) p hpn
+    · have : p = n := by omega
+      subst this
+      rw [List.drop_left' hlen]
+      exact List.take_of_length_le (h2 p (by omega))
+
+theorem pageSlice_eq_nil {β : Type} (l : List β) (B p : Nat) (h : l.length ≤ p * B) : pageSlice l B p = [] := by
+  unfold pageSlice
+  rw [List.drop_eq_nil_of_le h]; simp
+
+theorem pageSlice_getElem? {β : Type} (l : List β) (B p i : Nat) :
+    (pageSlice l B p)[i]? = if i < B then l[p*B + i]? else none := by
+  unfold pageSlice
+  rw [List.getElem?_take]
+  split
+  · rw [List.getElem?_drop]
+  · rfl
+
+theorem mem_pageSlice {β : Type} (l : List β) (B p : Nat) (f : β) (h : f ∈ pageSlice l B p) :
+    ∃ k, p * B ≤ k ∧ k < p * B + B ∧ l[k]? = some f := by
+  obtain ⟨i, hi⟩ := List.mem_iff_getElem?.mp h
+  rw [pageSlice_getElem?] at hi
+  split at hi
+  · exact ⟨p*B + i, by omega, by omega, hi⟩
+  · cases hi
+
+theorem sortedArr_of_pairwise {α : Type} [LinearOrder α] (l : List α) (h : l.Pairwise (· ≤ ·)) : SortedArr l.toArray := by
+  intro i j x y hij hx hy
+  simp only [List.getElem?_toArray] at hx hy
+  rcases Nat.lt_or_eq_of_le hij with hlt | rfl
+  · rw [List.pairwise_iff_getElem] at h
+    obtain ⟨hi, rfl⟩ := List.getElem?_eq_some_iff.mp hx
+    obtain ⟨hj, rfl⟩ := List.getElem?_eq_some_iff.mp hy
+    exact h i j hi hj hlt
+  · rw [hx] at hy; cases hy; exact le_refl _
+
+/-- `par_chunks_mut(b)`: the recursion of `chunks` yields exactly the slices `l[p*b .. (p+1)*b]` -/
+theorem chunks_spec {β : Type} (b : Nat) (hb : 0 < b) (fuel : Nat) (l : List β) (hf : l.length ≤ fuel) :
+    ∃ np, chunks b fuel l = (List.range np).map (pageSlice l b) ∧ l.length ≤ np * b ∧ ∀ p, p < np → p * b < l.length := by
+  induction fuel generalizing l with
+  | zero =>
+    have : l = [] := List.eq_nil_of_length_eq_zero (by omega)
+    subst this
+    exact ⟨0, by simp [chunks], by simp, by intro p hp; omega⟩
+  | succ n ih =>
+    unfold chunks
+    by_cases hl : l.isEmpty = true
+    · have : l = [] := by simpa using hl
+      subst this
+      exact ⟨0, by simp, by simp, by intro p hp; omega⟩
+    · have hne : l ≠ [] := by simpa using hl
+      have hpos : 0 < l.length := List.length_pos_iff.mpr hne
+      obtain ⟨np, h1, h2, h3⟩ := ih (l.drop b) (by rw [List.length_drop]; omega)
+      refine ⟨np + 1, ?_, ?_, ?_⟩
+      · rw [if_neg hl, h1, List.range_succ_eq_map, List.map_cons, List.map_map]
+        congr 1
+        · simp [pageSlice]
+        · apply List.map_congr_left
+          intro p _
+          simp only [Function.comp, pageSlice, List.drop_drop]
+          congr 2
+          rw [Nat.succ_mul]; omega
+      · rw [List.length_drop] at h2
+        rw [Nat.succ_mul]; omega
+      · intro p hp
+        cases p with
+        | zero => simpa using hpos
+        | succ q =>
+          have := h3 q (by omega)
+          rw [List.length_drop] at this
+          rw [Nat.succ_mul]; omega
+
+variable {α : Type} [LinearOrder α] [Add α] [Sub α] [Mul α] [Div α] [Neg α]
+
+/-- **C19.buildFeatureMap_inv** — for every page size `b ≥ 1`, every settings and every PSM list, the builder (sort
+    by rt, chunks of `b`, `min_rts` = first rt of each chunk, per-chunk sort by `mass_lo`) establishes the index
+    invariant `FmInv` the lookup relies on, and stores a permutation of the generated ranges. -/
+theorem buildFeatureMap_inv (b : Nat) (hb : 0 < b) (c : Env α) (ppm mobPct : α) (zLo zHi : Nat) (fs : List (Feat α)) :
+    FmInv (buildFeatureMapB b c ppm mobPct zLo zHi fs) ∧
+    (buildFeatureMapB b c ppm mobPct zLo zHi fs).ranges.Perm (allRanges c ppm mobPct zLo zHi fs) := by
+  unfold buildFeatureMapB
+  simp only
+  set all := allRanges c ppm mobPct zLo zHi fs with hall
+  set leRt : Range α → Range α → Bool := fun x y => decide (x.rt ≤ y.rt) with hleRt
+  set leM : Range α → Range α → Bool := fun x y => decide (x.massLo ≤ y.massLo) with hleM
+  set sorted := all.mergeSort leRt with hsorted
+  set n := sorted.length with hn
+  obtain ⟨np, hch, hnp, hpos⟩ := chunks_spec b hb n sorted (le_refl _)
+  rw [hch]
+  simp only [List.map_map]
+  set g : Nat → List (Range α) := fun p => (pageSlice sorted b p).mergeSort leM with hg
+  have hranges : ((List.range np).map ((fun p => p.mergeSort leM) ∘ pageSlice sorted b)).flatten = (List.range np).flatMap g := by
+    rw [List.flatMap_def]; rfl
+  rw [hranges]
+  have hsp : sorted.Perm all := List.mergeSort_perm all leRt
+  have hpw : sorted.Pairwise (fun a b => a.rt ≤ b.rt) := by
+    have := List.pairwise_mergeSort (le := leRt)
+      (fun a b c h1 h2 => by simp only [hleRt, decide_eq_true_eq] at *; order)
+      (fun a b => by simp only [hleRt, Bool.or_eq_true, decide_eq_true_eq]; exact le_total _ _) all
+    exact this.imp (fun h => by simpa [hleRt] using h)
+  have hidx : ∀ (i j : Nat) (x y : Range α), i ≤ j → sorted[i]? = some x → sorted[j]? = some y → x.rt ≤ y.rt := by
+    intro i j x y hij hx hy
+    rcases Nat.lt_or_eq_of_le hij with hlt | rfl
+    · rw [List.pairwise_iff_getElem] at hpw
+      obtain ⟨hi, rfl⟩ := List.getElem?_eq_some_iff.mp hx
+      obtain ⟨hj, rfl⟩ := List.getElem?_eq_some_iff.mp hy
+      exact hpw i j hi hj hlt
+    · rw [hx] at hy; cases hy; exact le_refl _
+  have hfull : ∀ p, p + 1 < np → p * b + b ≤ n := by
+    intro p hp
+    have := hpos (p + 1) hp
+    rw [Nat.succ_mul] at this; omega
+  have hslen : ∀ p, (pageSlice sorted b p).length = min b (n - p * b) := by
+    intro p; simp [pageSlice, List.length_take, List.length_drop, hn]
+  have hglen : ∀ p, (g p).length = min b (n - p * b) := by
+    intro p; simp only [hg, List.length_mergeSort, hslen]
+  have hfperm : ((List.range np).flatMap g).Perm sorted := by
+    have h1 := perm_flatMap (List.range np) g (fun p => pageSlice sorted b p)
+      (fun p _ => List.mergeSort_perm _ _)
+    rw [flatMap_chunks sorted b np hnp] at h1; exact h1
+  have hflen : ((List.range np).flatMap g).length = n := hfperm.length_eq
+  have hslice : ∀ p, pageSlice ((List.range np).flatMap g) b p = g p := by
+    intro p
+    by_cases hp : p < np
+    · exact chunk_flatMap g b np
+        (fun q hq => by rw [hglen]; have := hfull q hq; omega)
+        (fun q _ => by rw [hglen]; omega) p hp
+    · have hle : n ≤ p * b := by
+        have : np * b ≤ p * b := Nat.mul_le_mul_right b (by omega)
+        omega
+      rw [pageSlice_eq_nil _ b p (by rw [hflen]; exact hle)]
+      simp only [hg]
+      rw [pageSlice_eq_nil sorted b p hle]
+      simp
+  -- min_rts
+  have hhead : ∀ p, p < np → ∃ f0, sorted[p * b]? = some f0 ∧ headRt c (pageSlice sorted b p) = f0.rt := by
+    intro p hp
+    have hlt : p * b < sorted.length := hpos p hp
+    refine ⟨sorted[p * b], by simp, ?_⟩
+    have h0 : (pageSlice sorted b p)[0]? = some sorted[p * b] := by
+      rw [pageSlice_getElem?, if_pos hb]; simp
+    cases hs : pageSlice sorted b p with
+    | nil => rw [hs] at h0; cases h0
+    | cons r rest => rw [hs] at h0; simp at h0; simp [headRt, h0]
+  have hminv : ∀ p m, ((List.range np).map (headRt c ∘ pageSlice sorted b)).toArray[p]? = some m →
+      p < np ∧ ∃ f0, sorted[p * b]? = some f0 ∧ f0.rt = m := by
+    intro p m h
+    simp only [List.getElem?_toArray, List.getElem?_map] at h
+    have hp : p < np := by
+      by_contra hc
+      have : (List.range np)[p]? = none := by rw [List.getElem?_eq_none_iff]; simp; omega
+      rw [this] at h; cases h
+    refine ⟨hp, ?_⟩
+    rw [List.getElem?_range hp] at h
+    simp only [Option.map_some, Function.comp, Option.some.injEq] at h
+    obtain ⟨f0, h1, h2⟩ := hhead p hp
+    exact ⟨f0, h1, by rw [← h2, h]⟩
+  have hmem : ∀ p f, f ∈ pageSlice ((List.range np).flatMap g) b p → f ∈ pageSlice sorted b p := by
+    intro p f hf
+    rw [hslice p] at hf
+    exact List.mem_mergeSort.mp hf
+  refine ⟨⟨hb, ?_, ?_, ?_, ?_, ?_⟩, hfperm.trans hsp⟩
+  · simp only [List.size_toArray, List.length_map, List.length_range, hflen]; exact hnp
+  · intro i j x y hij hx hy
+    obtain ⟨_, a, ha, rfl⟩ := hminv i x hx
+    obtain ⟨_, a', hb', rfl⟩ := hminv j y hy
+    exact hidx _ _ a a' (Nat.mul_le_mul_right b hij) ha hb'
+  · intro p f m hf hmp
+    obtain ⟨_, a, ha, rfl⟩ := hminv (p+1) m hmp
+    obtain ⟨k, _, hk2, hk⟩ := mem_pageSlice sorted b p f (hmem p f hf)
+    rw [Nat.add_mul, Nat.one_mul] at ha
+    exact hidx _ _ f a (by omega) hk ha
+  · intro p f m hf hmp
+    obtain ⟨_, a, ha, rfl⟩ := hminv p m hmp
+    obtain ⟨k, hk1, _, hk⟩ := mem_pageSlice sorted b p f (hmem p f hf)
+    exact hidx _ _ a f hk1 ha hk
+  · intro p
+    rw [hslice p]
+    apply sortedArr_of_pairwise
+    rw [List.pairwise_map]
+    have := List.pairwise_mergeSort (le := leM)
+      (fun a b c h1 h2 => by simp only [hleM, decide_eq_true_eq] at *; order)
+      (fun a b => by simp only [hleM, Bool.or_eq_true, decide_eq_true_eq]; exact le_total _ _) (pageSlice sorted b p)
+    exact this.imp (fun h => by simpa [hleM] using h)
+
+/-- **C19.lookup_complete_built** (ℚ) — for a map built by `build_feature_map` (any page size ≥ 1) whose windows are all
+    narrower than the 0.1 Da search margin, every generated range whose window contains `(rt, mass)` is returned by
+    `rt_slice` + `mass_lookup`: together with `lookup_sound` the lookup returns exactly the in-window ranges.
+    No invariant hypothesis is left. -/
+theorem lookup_complete_built (b : Nat) (hb : 0 < b) (c : Env Rat) (bs : Array Rat → Nat → Rat → Nat)
+    (ppm mobPct : Rat) (zLo zHi : Nat) (fs : List (Feat Rat))
+    (hnarrow : ∀ r ∈ allRanges c ppm mobPct zLo zHi fs, r.massHi - r.massLo < c.margin)
+    (rt mass : Rat) (r : Range Rat) (hr : r ∈ allRanges c ppm mobPct zLo zHi fs)
+    (h3 : r.massLo ≤ mass) (h4 : mass ≤ r.massHi) (hrt : |rt - r.rt| ≤ c.rtTol) :
+    r ∈ massLookup c bs (buildFeatureMapB b c ppm mobPct zLo zHi fs) rt mass := by
+  obtain ⟨hinv, hperm⟩ := buildFeatureMap_inv b hb c ppm mobPct zLo zHi fs
+  exact lookup_complete c bs _ hinv (fun r hr => hnarrow r (hperm.mem_iff.mp hr)) rt mass r
+    (hperm.mem_iff.mpr hr) h3 h4 hrt
+
+/-- non-vacuity: one confident PSM (mass 1000, rt 1/2), charges 2..3, 5 ppm, pages of 4 ranges (so the 12 ranges
+    span three pages): all windows are narrower than 0.1 Da, and the charge-2 monoisotopic range is found for a
+    peak at m/z 500 in a scan 0.001 after the identification -/
+example :
+    let good : Feat Rat := { peptide := 3, label := 1, peptideQ := 1/200, alignedRt := 1/2, calcmass := 1000,
+                             charge := 2, fileId := 0, ims := 1 }
+    let r : Range Rat := { rt := 1/2, massLo := 500 - 500 * 5 / 1000000, massHi := 500 + 500 * 5 / 1000000,
+                           mobLo := 1 - 1/100, mobHi := 1 + 1/100, charge := 2, isotope := 0, peptide := 3,
+                           fileId := 0, decoy := false }
+    r ∈ massLookup ratEnv binSearchFrom (buildFeatureMapB 4 ratEnv 5 1 2 3 [good]) (1/2 + 1/1000) 500 := by
+  intro good r
+  refine lookup_complete_built 4 (by decide) ratEnv binSearchFrom 5 1 2 3 [good] ?_ _ _ r ?_ ?_ ?_ ?_
+  · have : (allRanges ratEnv 5 1 2 3 [good]).all (fun r => decide (r.massHi - r.massLo < ratEnv.margin)) = true := by
+      decide +kernel
+    intro r hr
+    simpa using List.all_eq_true.mp this r hr
+  · decide +kernel
+  · decide +kernel
+  · decide +kernel
+  · norm_num [ratEnv, Sage.Gen.LFQ_RT_TOL, abs_le]
+
+end buildInv
+
+/-! ### doubling -/
+
+section doubling
+variable {K : Type} [Field K] [LinearOrder K] [IsStrictOrderedRing K]
+
+omit [Field K] [LinearOrder K] [IsStrictOrderedRing K] in
+theorem toArray_getD (l : List K) (i : Nat) (z : K) : l.toArray.getD i z = l.getD i z := by
+  simp [Array.getD, List.getD_eq_getElem?_getD]
+  split <;> simp_all
+
+omit [LinearOrder K] [IsStrictOrderedRing K] in
+theorem getD_map_two (l : List K) (i : Nat) : (l.map (2 * ·)).getD i 0 = 2 * l.getD i 0 := by
+  rw [List.getD_eq_getElem?_getD, List.getD_eq_getElem?_getD, List.getElem?_map]
+  cases l[i]? <;> simp
+
+omit [LinearOrder K] [IsStrictOrderedRing K] in
+theorem zipWith_map_self {γ δ ε : Type} (f : γ → δ → ε) (g : γ → δ) (l : List γ) :
+    List.zipWith f l (l.map g) = l.map (fun x => f x (g x)) := by
+  induction l with
+  | nil => rfl
+  | cons x xs ih => simp [ih]
+
+omit [LinearOrder K] [IsStrictOrderedRing K] in
+/-- the cross-correlation with the reference is linear in the run -/
+theorem warpDot_double (e : FEnv K) (he : e.zero = 0) (reference : Array K) (run : List K) (off slack : Nat) :
+    warpDot e reference (run.map (2 * ·)).toArray off slack = 2 * warpDot e reference run.toArray off slack := by
+  unfold warpDot
+  simp only [List.size_toArray, List.length_map]
+  have key : ∀ (l : List Nat) (a : K),
+      l.foldl (fun dot i => if slack ≤ i + off ∧ i + off - slack < run.length then
+          dot + reference.getD i e.zero * (run.map (2 * ·)).toArray.getD (i + off - slack) e.zero else dot) (2 * a) =
+      2 * l.foldl (fun dot i => if slack ≤ i + off ∧ i + off - slack < run.length then
+          dot + reference.getD i e.zero * run.toArray.getD (i + off - slack) e.zero else dot) a := by
+    intro l
+    induction l with
+    | nil => intro a; rfl
+    | cons i is ih =>
+      intro a
+      simp only [List.foldl_cons]
+      split
+      · have : 2 * a + reference.getD i e.zero * (run.map (2 * ·)).toArray.getD (i + off - slack) e.zero =
+            2 * (a + reference.getD i e.zero * run.toArray.getD (i + off - slack) e.zero) := by
+          rw [he, toArray_getD (run.map (2 * ·)), toArray_getD run, getD_map_two]; ring
+        rw [this]
+        exact ih _
+      · exact ih a
+  have := key (List.range reference.size) e.zero
+  rw [he] at this ⊢
+  rw [mul_zero] at this
+  exact this
+
+/-- **the same warp offset**: scaling a run by 2 scales every candidate correlation by 2, so every comparison
+    `best ≤ d` of the arg-max loop (ties included) comes out the same -/
+theorem findWarp_double (e : FEnv K) (he : e.zero = 0) (reference : Array K) (run : List K) (slack : Nat) :
+    findWarp e reference (run.map (2 * ·)).toArray slack = findWarp e reference run.toArray slack := by
+  unfold findWarp
+  have key : ∀ (l : List Nat) (n : Nat) (v : K),
+      l.foldl (fun (best : Nat × K) off =>
+        if best.2 ≤ warpDot e reference (run.map (2 * ·)).toArray off slack
+        then (off, warpDot e reference (run.map (2 * ·)).toArray off slack) else best) (n, 2 * v) =
+      ((l.foldl (fun (best : Nat × K) off =>
+        if best.2 ≤ warpDot e reference run.toArray off slack
+        then (off, warpDot e reference run.toArray off slack) else best) (n, v)).1,
+       2 * (l.foldl (fun (best : Nat × K) off =>
+        if best.2 ≤ warpDot e reference run.toArray off slack
+        then (off, warpDot e reference run.toArray off slack) else best) (n, v)).2) := by
+    intro l
+    induction l with
+    | nil => intro n v; rfl
+    | cons o os ih =>
+      intro n v
+      simp only [List.foldl_cons]
+      rw [warpDot_double e he reference run o slack]
+      by_cases hc : v ≤ warpDot e reference run.toArray o slack
+      · have hc' : 2 * v ≤ 2 * warpDot e reference run.toArray o slack := by linarith
+        rw [if_pos hc, if_pos hc']
+        exact ih o _
+      · have hc' : ¬ 2 * v ≤ 2 * warpDot e reference run.toArray o slack := by
+          intro h; apply hc; linarith
+        rw [if_neg hc, if_neg hc']
+        exact ih n v
+  have := key (List.range (2 * slack + 1)) slack e.zero
+  rw [he, mul_zero] at this
+  rw [he, this]
+
+omit [LinearOrder K] [IsStrictOrderedRing K] in
+theorem applyWarp_double (e : FEnv K) (he : e.zero = 0) (run : List K) (off slack : Nat) :
+    applyWarp e (run.map (2 * ·)) off slack = (applyWarp e run off slack).map (2 * ·) := by
+  unfold applyWarp
+  simp only [List.length_map, List.map_map, List.size_toArray]
+  apply List.map_congr_left
+  intro i _
+  simp only [Function.comp]
+  split
+  · rw [he, toArray_getD (run.map (2 * ·)), toArray_getD run, getD_map_two]
+  · rw [he, mul_zero]
+
+omit [LinearOrder K] [IsStrictOrderedRing K] in
+theorem sumB_double (e : FEnv K) (he : e.zero = 0) (l : List K) : sumB e (l.map (2 * ·)) = 2 * sumB e l := by
+  unfold sumB
+  have key : ∀ (l : List K) (a : K), (l.map (2 * ·)).foldl (· + ·) (2 * a) = 2 * l.foldl (· + ·) a := by
+    intro l
+    induction l with
+    | nil => intro a; rfl
+    | cons x xs ih => intro a; simp only [List.map_cons, List.foldl_cons]; rw [← mul_add]; exact ih _
+  have := key l e.zero
+  rw [he, mul_zero] at this
+  rw [he]; exact this
+
+omit [IsStrictOrderedRing K] in
+/-- the warped dot-product rows are the un-warped rows mapped, row by row, through one function -/
+theorem warp_dot_map (e : FEnv K) (t : Traces K) :
+    (warp e t).dot = t.dot.map (fun run =>
+      applyWarp e run (findWarp e (t.dot.getD t.refFile []).toArray run.toArray 75) 75) := by
+  unfold warp
+  simp only
+  rw [zipWith_map_self]
+
+omit [IsStrictOrderedRing K] in
+/-- the areas are the warped rows mapped through one function of the (global) peak position and boundaries -/
+theorem integrate_areas (e : FEnv K) (cols : Nat) (t0 : Traces K) (strategy : Scoring) (sum : Bool) (saThr : K)
+    (r : Integrated K) (h : integrate e cols t0 strategy sum saThr = some r) :
+    ∃ left right best : Nat, r.areas = (warp e t0).dot.map (fun row =>
+      if sum then sumB e ((row.drop left).take (right - left)) else row.getD best e.zero) := by
+  unfold integrate at h
+  simp only at h
+  split at h
+  · cases h
+  · simp only [Option.some.injEq] at h
+    subst h
+    exact ⟨_, _, _, rfl⟩
+
+/-- **C19.doubling** — over any linearly ordered field: if in the traces of one precursor the dot-product row of
+    file `B` is exactly twice the row of file `A`, then both files get the same time-warp offset and `integrate`
+    reports exactly twice the area for `B`, for every reference file, scoring strategy, integration strategy and
+    threshold. Arg-max ties do not matter: the peak position and its boundaries are computed once for all files,
+    and the warp arg-max compares `2·x ≤ 2·y` exactly when it compares `x ≤ y`. -/
+theorem doubling (e : FEnv K) (he : e.zero = 0) (cols : Nat) (t0 : Traces K) (strategy : Scoring) (sum : Bool)
+    (saThr : K) (A B : Nat) (rowA : List K) (hA : t0.dot[A]? = some rowA) (hB : t0.dot[B]? = some (rowA.map (2 * ·)))
+    (r : Integrated K) (h : integrate e cols t0 strategy sum saThr = some r) :
+    ∃ a, r.areas[A]? = some a ∧ r.areas[B]? = some (2 * a) := by
+  obtain ⟨left, right, best, hr⟩ := integrate_areas e cols t0 strategy sum saThr r h
+  rw [hr, warp_dot_map]
+  simp only [List.getElem?_map, hA, hB, Option.map_some]
+  refine ⟨_, rfl, ?_⟩
+  rw [findWarp_double e he, applyWarp_double e he]
+  congr 1
+  split
+  · rw [← List.map_drop, ← List.map_take, sumB_double e he]
+  · rw [he, getD_map_two]
+
+/-! #### from doubled grid rows to doubled dot-product rows -/
+
+omit [LinearOrder K] [IsStrictOrderedRing K] in
+theorem dotZip_double (e : FEnv K) (xs ys : List K) (acc : K) :
+    dotZip e (xs.map (2 * ·)) ys (2 * acc) = 2 * dotZip e xs ys acc := by
+  induction xs generalizing ys acc with
+  | nil => simp [dotZip]
+  | cons x xs ih =>
+    cases ys with
+    | nil => simp [dotZip]
+    | cons y ys =>
+      simp only [List.map_cons, dotZip]
+      have : 2 * acc + 2 * x * y = 2 * (acc + x * y) := by ring
+      rw [this]; exact ih ys _
+
+omit [LinearOrder K] [IsStrictOrderedRing K] in
+/-- the gaussian smoothing is linear -/
+theorem convolve_double (e : FEnv K) (he : e.zero = 0) (sl k : List K) :
+    convolve e (sl.map (2 * ·)) k = (convolve e sl k).map (2 * ·) := by
+  unfold convolve
+  simp only [List.length_map, List.map_map]
+  apply List.map_congr_left
+  intro idx _
+  simp only [Function.comp]
+  rw [← List.map_drop]
+  have := dotZip_double e (sl.drop (idx - (k.length - k.length / 2 - 1))) (k.drop (k.length - (k.length - k.length / 2 + idx))) 0
+  rw [he]
+  rw [mul_zero] at this
+  exact this
+
+/-- the dot-product row of one file, as `summarize_traces` computes it -/
+def dotsOf {α : Type} (e : FEnv K) (g : Grid α K) (dist : List K) (file : Nat) : List K :=
+  (List.range g.cols).map fun col =>
+    (List.range nIso).foldl (fun acc iso =>
+      acc + ((((List.range nIso).map fun iso => convolve e (rowOf g.cells g.cols (file * nIso + iso))
+        (gaussKernel e e.half kWidth)).getD iso []).getD col e.zero) * dist.getD iso e.zero) e.zero
+
+omit [IsStrictOrderedRing K] in
+theorem summarize_dot_eq {α : Type} (e : FEnv K) (g : Grid α K) (dist : List K) (ssDist : K) :
+    (summarize e g dist ssDist).dot = (List.range g.files).map (dotsOf e g dist) := by
+  unfold summarize dotsOf
+  simp only [List.map_map]
+  rfl
+
+omit [IsStrictOrderedRing K] in
+/-- **C19.summarize_double** — if every isotope row of file `B` in the grid is twice the corresponding row of file
+    `A`, the smoothed traces and the dot-product row of `B` are twice those of `A`. -/
+theorem summarize_double {α : Type} (e : FEnv K) (he : e.zero = 0) (g : Grid α K) (dist : List K) (ssDist : K)
+    (A B : Nat) (hA : A < g.files) (hB : B < g.files)
+    (hrows : ∀ iso, iso < nIso →
+      rowOf g.cells g.cols (B * nIso + iso) = (rowOf g.cells g.cols (A * nIso + iso)).map (2 * ·)) :
+    (summarize e g dist ssDist).dot[A]? = some (dotsOf e g dist A) ∧
+    (summarize e g dist ssDist).dot[B]? = some ((dotsOf e g dist A).map (2 * ·)) := by
+  rw [summarize_dot_eq]
+  simp only [List.getElem?_map, List.getElem?_range hA, List.getElem?_range hB, Option.map_some]
+  refine ⟨trivial, ?_⟩
+  congr 1
+  unfold dotsOf
+  simp only [List.map_map]
+  apply List.map_congr_left
+  intro col _
+  simp only [Function.comp]
+  -- the three convolved traces of B are twice those of A
+  have hconv : ((List.range nIso).map fun iso => convolve e (rowOf g.cells g.cols (B * nIso + iso))
+        (gaussKernel e e.half kWidth)) =
+      ((List.range nIso).map fun iso => convolve e (rowOf g.cells g.cols (A * nIso + iso))
+        (gaussKernel e e.half kWidth)).map (List.map (2 * ·)) := by
+    rw [List.map_map]
+    apply List.map_congr_left
+    intro iso hiso
+    simp only [Function.comp]
+    rw [hrows iso (List.mem_range.mp hiso), convolve_double e he]
+  rw [hconv]
+  generalize ((List.range nIso).map fun iso => convolve e (rowOf g.cells g.cols (A * nIso + iso))
+        (gaussKernel e e.half kWidth)) = cv
+  have hget : ∀ iso, ((cv.map (List.map (2 * ·))).getD iso []).getD col e.zero = 2 * (cv.getD iso []).getD col e.zero := by
+    intro iso
+    rw [he]
+    rw [List.getD_eq_getElem?_getD (l := cv.map _), List.getElem?_map]
+    rw [List.getD_eq_getElem?_getD (l := cv)]
+    cases cv[iso]? with
+    | none => simp
+    | some c => simp only [Option.map_some, Option.getD_some]; exact getD_map_two c col
+  have key : ∀ (l : List Nat) (a : K),
+      l.foldl (fun acc iso => acc + ((cv.map (List.map (2 * ·))).getD iso []).getD col e.zero * dist.getD iso e.zero) (2 * a) =
+      2 * l.foldl (fun acc iso => acc + (cv.getD iso []).getD col e.zero * dist.getD iso e.zero) a := by
+    intro l
+    induction l with
+    | nil => intro a; rfl
+    | cons i is ih =>
+      intro a
+      simp only [List.foldl_cons]
+      rw [hget i]
+      have : 2 * a + 2 * (cv.getD i []).getD col e.zero * dist.getD i e.zero =
+          2 * (a + (cv.getD i []).getD col e.zero * dist.getD i e.zero) := by ring
+      rw [this]; exact ih _
+  have := key (List.range nIso) e.zero
+  rw [he, mul_zero] at this
+  rw [he]
+  exact this
+
+/-- **C19.doubling_grid** — `summarize_double` and `doubling` composed: a grid whose rows of file `B` are twice the
+    rows of file `A` is integrated to exactly twice the area for `B`. -/
+theorem doubling_grid {α : Type} (e : FEnv K) (he : e.zero = 0) (g : Grid α K) (dist : List K) (ssDist : K)
+    (A B : Nat) (hA : A < g.files) (hB : B < g.files)
+    (hrows : ∀ iso, iso < nIso →
+      rowOf g.cells g.cols (B * nIso + iso) = (rowOf g.cells g.cols (A * nIso + iso)).map (2 * ·))
+    (strategy : Scoring) (sum : Bool) (saThr : K) (r : Integrated K)
+    (h : integrate e g.cols (summarize e g dist ssDist) strategy sum saThr = some r) :
+    ∃ a, r.areas[A]? = some a ∧ r.areas[B]? = some (2 * a) := by
+  obtain ⟨h1, h2⟩ := summarize_double e he g dist ssDist A B hA hB hrows
+  exact doubling e he g.cols _ strategy sum saThr A B _ h1 h2 r h
+
+/-- non-vacuity: two files, 4 bins; the three isotope rows of file 1 are twice those of file 0; file 1 gets exactly
+    twice the (positive) area of file 0 -/
+example :
+    let g : Grid Rat Rat := { rtMin := 0, rtStep := 1, files := 2, refFile := 0, cols := 4,
+                              cells := #[0, 4, 2, 0,  0, 2, 1, 0,  0, 1, 1/2, 0,
+                                         0, 8, 4, 0,  0, 4, 2, 0,  0, 2, 1, 0] }
+    (∀ iso, iso < nIso → rowOf g.cells g.cols (1 * nIso + iso) = (rowOf g.cells g.cols (0 * nIso + iso)).map (2 * ·)) ∧
+    (integrate toyFEnv g.cols (summarize toyFEnv g [1, 1/2, 1/4] 1) .retentionTime false 0).map
+        (fun r => (decide (0 < r.areas.getD 0 0), decide (r.areas.getD 1 0 = 2 * r.areas.getD 0 0))) = some (true, true) := by
+  decide +kernel
+
+end doubling
+
+/-! ### file permutation -/
+
+section filePerm
+variable {K : Type} [Field K] [LinearOrder K] [IsStrictOrderedRing K]
+
+omit [Field K] [LinearOrder K] [IsStrictOrderedRing K] in
+theorem zip_zipWith_map {γ δ ε : Type} (f : γ → δ → ε) (g : γ → δ) (as ds : List γ) :
+    List.zip (List.zipWith f as (ds.map g)) (List.zipWith f ds (ds.map g)) =
+      (List.zip as ds).map (fun p => (f p.1 (g p.2), f p.2 (g p.2))) := by
+  induction as generalizing ds with
+  | nil => simp
+  | cons a as ih =>
+    cases ds with
+    | nil => simp
+    | cons d ds => simp [ih]
+
+omit [IsStrictOrderedRing K] in
+/-- the warped (angle, dot) row pairs are the un-warped pairs mapped, pair by pair, through one function that
+    depends on the other files only through the reference row -/
+theorem zip_warp (e : FEnv K) (t : Traces K) :
+    List.zip (warp e t).angle (warp e t).dot = (List.zip t.angle t.dot).map (fun p =>
+      (applyWarp e p.1 (findWarp e (t.dot.getD t.refFile []).toArray p.2.toArray 75) 75,
+       applyWarp e p.2 (findWarp e (t.dot.getD t.refFile []).toArray p.2.toArray 75) 75)) := by
+  unfold warp
+  simp only
+  exact zip_zipWith_map (fun run off => applyWarp e run off 75)
+    (fun run => findWarp e (t.dot.getD t.refFile []).toArray run.toArray 75) t.angle t.dot
+
+omit [LinearOrder K] [IsStrictOrderedRing K] in
+/-- the per-column sums over files do not depend on the order of the files -/
+theorem colFold_perm (e : FEnv K) (col : Nat) (zs zs' : List (List K × List K)) (h : zs'.Perm zs) (init : K × K) :
+    zs'.foldl (fun (acc : K × K) (rows : List K × List K) =>
+      let sa := rows.1.getD col e.zero
+      let dotp := rows.2.getD col e.zero
+      (acc.1 + sa * dotp, acc.2 + dotp)) init =
+    zs.foldl (fun (acc : K × K) (rows : List K × List K) =>
+      let sa := rows.1.getD col e.zero
+      let dotp := rows.2.getD col e.zero
+      (acc.1 + sa * dotp, acc.2 + dotp)) init := by
+  apply h.foldl_eq'
+  intro x _ y _ z
+  simp only
+  ext <;> simp only <;> ring
+
+omit [LinearOrder K] [IsStrictOrderedRing K] in
+/-- **C19.scores_file_permutation** — if the (angle, dot) row pairs of `t'` are a permutation of those of `t`, both
+    have the same column scores (hence the same peak position and boundaries) -/
+theorem scores_file_permutation (e : FEnv K) (cols : Nat) (t t' : Traces K) (strategy : Scoring)
+    (h : (List.zip t'.angle t'.dot).Perm (List.zip t.angle t.dot)) :
+    scores e cols t' strategy = scores e cols t strategy := by
+  unfold scores
+  simp only [colFold_perm e _ _ _ h]
+
+/-- the arg-max loop of `integrate` -/
+def peakOf (e : FEnv K) (sc sp : Array K) (saThr : K) : Nat × K :=
+  (List.range sc.size).foldl (fun (b : Nat × K) rt =>
+    let s := sc.getD rt e.zero
+    if b.2 < s ∧ saThr ≤ sp.getD rt e.zero then (rt, s) else b) (0, e.zero)
+
+/-- the area of one (warped) row, given the peak position and boundaries -/
+def areaOf (e : FEnv K) (sum : Bool) (left right best : Nat) (row : List K) : K :=
+  if sum then sumB e ((row.drop left).take (right - left)) else row.getD best e.zero
+
+/-- `integrate` after the warp: everything except `areas` is a function of the column scores and of the
+    per-column sums at the peak; `areas` maps each row through `areaOf` -/
+def integrateW (e : FEnv K) (cols : Nat) (t : Traces K) (strategy : Scoring) (sum : Bool) (saThr : K) :
+    Option (Integrated K) :=
+  let S := scores e cols t strategy
+  let sc := S.1.toArray
+  let sp := S.2.toArray
+  let best := peakOf e sc sp saThr
+  if best.2 ≤ e.zero ∧ e.zero ≤ best.2 then none else
+  let thr := best.2 * e.half
+  let left := walkPeakLeft sc sp e.zero thr saThr (best.1 - sc.size / 5) (best.1 - 1)
+  let right := walkPeakRight sc sp e.zero thr saThr (min (sc.size - 1) (best.1 + 20)) (best.1 + 1) sc.size
+  let ws := (List.zip t.angle t.dot).foldl (fun (acc : K × K) (rows : List K × List K) =>
+      let sa := rows.1.getD best.1 e.zero
+      let dotp := rows.2.getD best.1 e.zero
+      (acc.1 + sa * dotp, acc.2 + dotp)) (e.zero, e.one)
+  some { rt := best.1, score := best.2, spectralAngle := ws.1 / ws.2,
+         areas := t.dot.map (areaOf e sum left right best.1) }
+
+omit [IsStrictOrderedRing K] in
+theorem integrate_eq (e : FEnv K) (cols : Nat) (t0 : Traces K) (strategy : Scoring) (sum : Bool) (saThr : K) :
+    integrate e cols t0 strategy sum saThr = integrateW e cols (warp e t0) strategy sum saThr := rfl
+
+omit [IsStrictOrderedRing K] in
+/-- after the warp: permuting the (angle, dot) row pairs changes nothing but the order of the areas -/
+theorem integrateW_perm (e : FEnv K) (cols : Nat) (t t' : Traces K) (strategy : Scoring) (sum : Bool) (saThr : K)
+    (hz : (List.zip t'.angle t'.dot).Perm (List.zip t.angle t.dot)) :
+    ∃ left right best : Nat,
+      (∀ r, integrateW e cols t strategy sum saThr = some r → r.areas = t.dot.map (areaOf e sum left right best)) ∧
+      (∀ r', integrateW e cols t' strategy sum saThr = some r' → r'.areas = t'.dot.map (areaOf e sum left right best)) ∧
+      (integrateW e cols t' strategy sum saThr).map (fun r => (r.rt, r.score, r.spectralAngle)) =
+        (integrateW e cols t strategy sum saThr).map (fun r => (r.rt, r.score, r.spectralAngle)) := by
+  have hs := scores_file_permutation e cols t t' strategy hz
+  refine ⟨walkPeakLeft (scores e cols t strategy).1.toArray (scores e cols t strategy).2.toArray e.zero
+      ((peakOf e (scores e cols t strategy).1.toArray (scores e cols t strategy).2.toArray saThr).2 * e.half) saThr
+      ((peakOf e (scores e cols t strategy).1.toArray (scores e cols t strategy).2.toArray saThr).1 -
+        (scores e cols t strategy).1.toArray.size / 5)
+      ((peakOf e (scores e cols t strategy).1.toArray (scores e cols t strategy).2.toArray saThr).1 - 1),
+    walkPeakRight (scores e cols t strategy).1.toArray (scores e cols t strategy).2.toArray e.zero
+      ((peakOf e (scores e cols t strategy).1.toArray (scores e cols t strategy).2.toArray saThr).2 * e.half) saThr
+      (min ((scores e cols t strategy).1.toArray.size - 1)
+        ((peakOf e (scores e cols t strategy).1.toArray (scores e cols t strategy).2.toArray saThr).1 + 20))
+      ((peakOf e (scores e cols t strategy).1.toArray (scores e cols t strategy).2.toArray saThr).1 + 1)
+      (scores e cols t strategy).1.toArray.size,
+    (peakOf e (scores e cols t strategy).1.toArray (scores e cols t strategy).2.toArray saThr).1, ?_, ?_, ?_⟩
+  · intro r h
+    unfold integrateW at h
+    simp only at h
+    split at h
+    · cases h
+    · simp only [Option.some.injEq] at h
+      subst h; rfl
+  · intro r h
+    unfold integrateW at h
+    rw [hs] at h
+    simp only at h
+    split at h
+    · cases h
+    · simp only [Option.some.injEq] at h
+      subst h; rfl
+  · unfold integrateW
+    rw [hs]
+    simp only [colFold_perm e _ _ _ hz]
+    split <;> rfl
+
+omit [IsStrictOrderedRing K] in
+/-- **C19.file_permutation** — if the traces of one precursor differ only by a permutation of the files (the
+    (angle, dot) row pairs are permuted and the reference file's row is the same row), then `integrate` finds the
+    same peak (position, score, spectral angle, or no peak at all) and there is ONE function `Φ` of a file's own
+    dot-product row such that both area vectors are that function mapped over the rows: the per-file areas follow
+    their files. (Exact arithmetic: the per-column sums over files are re-associated.) -/
+theorem file_permutation (e : FEnv K) (cols : Nat) (t0 t0' : Traces K) (strategy : Scoring) (sum : Bool) (saThr : K)
+    (hz : (List.zip t0'.angle t0'.dot).Perm (List.zip t0.angle t0.dot))
+    (href : t0'.dot.getD t0'.refFile [] = t0.dot.getD t0.refFile []) :
+    ∃ Φ : List K → K,
+      (∀ r, integrate e cols t0 strategy sum saThr = some r → r.areas = t0.dot.map Φ) ∧
+      (∀ r', integrate e cols t0' strategy sum saThr = some r' → r'.areas = t0'.dot.map Φ) ∧
+      (integrate e cols t0' strategy sum saThr).map (fun r => (r.rt, r.score, r.spectralAngle)) =
+        (integrate e cols t0 strategy sum saThr).map (fun r => (r.rt, r.score, r.spectralAngle)) := by
+  have hzw : (List.zip (warp e t0').angle (warp e t0').dot).Perm (List.zip (warp e t0).angle (warp e t0).dot) := by
+    rw [zip_warp, zip_warp, href]
+    exact hz.map _
+  obtain ⟨left, right, best, h1, h2, h3⟩ := integrateW_perm e cols (warp e t0) (warp e t0') strategy sum saThr hzw
+  refine ⟨fun run => areaOf e sum left right best
+    (applyWarp e run (findWarp e (t0.dot.getD t0.refFile []).toArray run.toArray 75) 75), ?_, ?_, ?_⟩
+  · intro r h
+    rw [integrate_eq] at h
+    rw [h1 r h, warp_dot_map, List.map_map]; rfl
+  · intro r h
+    rw [integrate_eq] at h
+    rw [h2 r h, warp_dot_map, List.map_map, href]; rfl
+  · rw [integrate_eq, integrate_eq]; exact h3
+
+omit [IsStrictOrderedRing K] in
+/-- the areas follow their files: a file that sits at position `j` after the permutation and at `i` before gets
+    the same area -/
+theorem file_permutation_areas (e : FEnv K) (cols : Nat) (t0 t0' : Traces K) (strategy : Scoring) (sum : Bool) (saThr : K)
+    (hz : (List.zip t0'.angle t0'.dot).Perm (List.zip t0.angle t0.dot))
+    (href : t0'.dot.getD t0'.refFile [] = t0.dot.getD t0.refFile [])
+    (r r' : Integrated K) (h : integrate e cols t0 strategy sum saThr = some r)
+    (h' : integrate e cols t0' strategy sum saThr = some r')
+    (i j : Nat) (hij : t0'.dot[j]? = t0.dot[i]?) :
+    r'.areas[j]? = r.areas[i]? ∧ r'.rt = r.rt ∧ r'.score = r.score ∧ r'.spectralAngle = r.spectralAngle := by
+  obtain ⟨Φ, h1, h2, h3⟩ := file_permutation e cols t0 t0' strategy sum saThr hz href
+  rw [h1 r h, h2 r' h', List.getElem?_map, List.getElem?_map, hij]
+  rw [h, h'] at h3
+  simp only [Option.map_some, Option.some.injEq, Prod.mk.injEq] at h3
+  exact ⟨rfl, h3.1, h3.2.1, h3.2.2⟩
+
+/-- non-vacuity: two files swapped (reference file follows: 0 ↦ 1); the areas swap, the peak is the same -/
+example :
+    let t : Traces Rat := { dot := [[0, 4, 2, 0], [0, 2, 3, 0]], angle := [[1, 1, 1, 1], [1/2, 1/2, 1/2, 1/2]], refFile := 0 }
+    let t' : Traces Rat := { dot := [[0, 2, 3, 0], [0, 4, 2, 0]], angle := [[1/2, 1/2, 1/2, 1/2], [1, 1, 1, 1]], refFile := 1 }
+    (integrate toyFEnv 4 t .retentionTime false 0).map (fun r => (r.rt, r.areas)) = some (2, [2, 3]) ∧
+    (integrate toyFEnv 4 t' .retentionTime false 0).map (fun r => (r.rt, r.areas)) = some (2, [3, 2]) := by
+  decide +kernel
+
+/-- the hypotheses of `file_permutation` hold for that pair (row pairs swapped, the reference row is the same row) -/
+example :
+    let t : Traces Rat := { dot := [[0, 4, 2, 0], [0, 2, 3, 0]], angle := [[1, 1, 1, 1], [1/2, 1/2, 1/2, 1/2]], refFile := 0 }
+    let t' : Traces Rat := { dot := [[0, 2, 3, 0], [0, 4, 2, 0]], angle := [[1/2, 1/2, 1/2, 1/2], [1, 1, 1, 1]], refFile := 1 }
+    (List.zip t'.angle t'.dot).Perm (List.zip t.angle t.dot) ∧ t'.dot.getD t'.refFile [] = t.dot.getD t.refFile [] :=
+  ⟨List.Perm.swap _ _ [], rfl⟩
+
+end filePerm
 
 end Sage.C19
